@@ -619,6 +619,14 @@ func c06Handshake(in *c06In, aes bool) Result {
 			Nontrivial: true}
 	}
 	defer inst.Stop()
+	allOff := true
+	for _, s := range in.Sites {
+		allOff = allOff && s.Off
+	}
+	if allOff {
+		// plaintext listener: there is no handshake to observe
+		return Result{Term: mk(8, 0, false, "SNoSite"), Obs: "plaintext listener", Sig: sig, Class: "handshake:plaintext-listener"}
+	}
 	_, port, _ := net.SplitHostPort(inst.Servers()[0].Addr().String())
 	asked := false
 	d := &net.Dialer{Timeout: 5 * time.Second}
